@@ -1,4 +1,4 @@
 Require Extraction.
 Require Import ExtrOcamlBasic.
 From Argot Require Import Lang.MuSSA Model.Andersen.
-Extraction "andersen.ml" analyze check_closed fpts freach fedges cg_reachable_from PM.elements.
+Extraction "andersen.ml" analyze check_closed fpts ls_elements freach fedges cg_reachable_from PM.elements.
